@@ -102,6 +102,7 @@ def build():
         ],
         note="list(app_sig.model_sigs) is modelled as the snapshot list of the app's model signatures")
 
+    add_delete_model_mutate(w)
     fam = Family('contracts.deletion', w)
     fam.syntactic.append(Syntactic('purge_only_on_request', ['C15'], syn_purge_gate,
                                    'Command._add_tasks queues purge tasks only under `if self.purge:`; '
@@ -160,3 +161,76 @@ def syn_drop_list():
     walk(ex.node, False)
     ok = sorted(calls) == sorted([(True, 'm2m_table'), (False, 'model._meta.db_table')])
     return ok, 'delete_table calls: %r' % (calls,)
+
+
+# ------------------------------------------------------------------------------------------ DeleteModel.mutate
+
+def add_delete_model_mutate(w):
+    import z3
+    SR = K.Ref('SQLResult')
+    w.cls('SQLResult', {'drops_table': K.Str})
+    w.cls('FieldObj', {})
+    w.cls('MetaObj', {'db_table': K.Str})
+    w.cls('MockModel', {'_meta': K.Ref('MetaObj')})
+    w.cls('Backend', {})
+    w.cls('ModelMutator', {'model_sig': K.Ref('ModelSignature'), 'evolver': K.Ref('Backend')})
+    w.ghost_var('added', K.Seq(K.Tuple(SR, K.Str)))        # (receiving result object, table dropped) in order
+    w.ghost_var('submitted', K.Opt(SR))                    # the result handed to mutator.add_sql
+    w.ghost_var('submit_count', K.Int)
+
+    def m2m_table_of(it, model, field_name):
+        f = it.p.ctx.ufunc('m2m_table_of', z3.IntSort(), z3.StringSort(), z3.StringSort())
+        return K.vstr(f(model.t, field_name.t))
+    w.spec_funcs['m2m_table_of'] = m2m_table_of
+    w.stub('SQLResult.__init__', params={'self': SR}, modifies=['SQLResult.drops_table[self]'])
+    w.stub('MetaObj.get_field', params={'self': K.Ref('MetaObj'), 'name': K.Str}, returns=K.Ref('FieldObj'), pure=True, reads=())
+    w.stub('FieldObj._get_m2m_db_table', params={'self': K.Ref('FieldObj'), 'opts': K.Ref('MetaObj')}, returns=K.Str,
+           pure=True, reads=(), note="Django: the automatically created table of a ManyToManyField")
+    w.stub('Backend.delete_table', params={'self': K.Ref('Backend'), 'table_name': K.Str}, returns=SR,
+           modifies=['SQLResult.drops_table'],
+           ensures=['fresh_ref(result)', 'result.drops_table == table_name',
+                    'forall(Ref_SQLResult, lambda r: implies(not fresh_ref(r), r.drops_table == old(r.drops_table)))'],
+           note='DROP TABLE <name> as a new result object')
+    w.kinds['Ref_SQLResult'] = SR
+    w.stub('SQLResult.add', params={'self': SR, 'sql_or_result': SR},
+           effects=['added = added + [(self, sql_or_result.drops_table)]'],
+           note='merges the statements of the argument into self')
+    w.stub('ModelMutator.add_sql', params={'self': K.Ref('ModelMutator'), 'mutation': K.Ref('DeleteModel'), 'sql': SR},
+           effects=['submitted = sql', 'submit_count = submit_count + 1'],
+           note='queues the SQL for execution')
+    FS = 'mutator.model_sig._field_sigs'
+    TABLE_OF = ("FieldObj__get_m2m_db_table(model._meta.get_field({fs}[key_at({fs}, {x})].field_name), model._meta)"
+                .format(fs=FS, x='{x}'))
+    w.define('m2m_table_at', ['mutator', 'model', 'x'],
+             "model._meta.get_field(%s[key_at(%s, x)].field_name)._get_m2m_db_table(model._meta)" % (FS, FS))
+    w.contract(
+        'DeleteModel.mutate', module=DELM, serves=['C15'],
+        params={'self': K.Ref('DeleteModel'), 'mutator': K.Ref('ModelMutator'), 'model': K.Ref('MockModel')},
+        requires=['len(added) == 0', 'submit_count == 0'],
+        modifies=['added', 'submitted', 'submit_count', 'SQLResult.drops_table'],
+        raises={},
+        invariants={1: LoopInv('for field_sig in mutator.model_sig.field_sigs:', index='i', clauses=[
+            'submit_count == 0', 'mutator.model_sig._field_sigs == old(mutator.model_sig._field_sigs)',
+            'model._meta.db_table == old(model._meta.db_table)',
+            # every drop so far went into the one result object that will be submitted
+            'forall(range(len(added)), lambda a: sel(added, a)[0] is sql_result)',
+            # the auto-created table of every many-to-many field seen so far is dropped ...
+            'forall(range(i), lambda x: implies(live(%s, x) and is_m2m(%s[key_at(%s, x)].field_type), '
+            '       exists(range(len(added)), lambda a: sel(added, a)[1] == m2m_table_at(mutator, model, x))))' % (FS, FS, FS),
+            # ... and nothing else is
+            'forall(range(len(added)), lambda a: exists(range(i), lambda x: live(%s, x) and '
+            '       is_m2m(%s[key_at(%s, x)].field_type) and sel(added, a)[1] == m2m_table_at(mutator, model, x)))' % (FS, FS, FS),
+        ])},
+        ensures=[
+            'submit_count == 1', 'submitted is not None',
+            'forall(range(len(added)), lambda a: sel(added, a)[0] is some(submitted))',
+            # exactly: the M2M tables of the model, then the model's own table
+            'len(added) >= 1', 'sel(added, len(added) - 1)[1] == old(model._meta.db_table)',
+            'forall(range(log_len(%s)), lambda x: implies(live(%s, x) and is_m2m(%s[key_at(%s, x)].field_type), '
+            '       exists(range(len(added) - 1), lambda a: sel(added, a)[1] == m2m_table_at(mutator, model, x))))'
+            % (FS, FS, FS, FS),
+            'forall(range(len(added) - 1), lambda a: exists(range(log_len(%s)), lambda x: live(%s, x) and '
+            '       is_m2m(%s[key_at(%s, x)].field_type) and sel(added, a)[1] == m2m_table_at(mutator, model, x)))'
+            % (FS, FS, FS, FS),
+        ])
+    w.spec_funcs['is_m2m'] = sigsim.is_m2m
